@@ -64,6 +64,32 @@ PropResidual(err) == err <= TolAlg
 (* repr (logged from the input alone; up to 1e-8 for locations 1e6 over spreads 0.02) - the identity cannot hold better than that      *)
 PropBack(err, repr) == err <= TolAlg + 4 * Min2(repr, 100000)
 
+(* ---- C02, location class (INPUT-CLASSES K3): what the column locations cost --------------------------------------------------- *)
+(* A column with mean m_j is stored with entries of size |m_j|: the centred entries x_ij - m_j are known only to one ulp of |m_j|, and a  *)
+(* mean summed over n entries in double precision is off by at most n ulp.  In units of the leading singular value of E the input     *)
+(* alone gives  loc = 2^-53 sqrt(n SUM_j (m_j/scale_j)^2) / sigma_1  (logged, 1e-12 units): E as a correct double-precision routine     *)
+(* sees it is E_true + D with |D| <= (n + 1) loc sigma_1 (n for the summed mean, 1 for the storage of a transformed copy in the paired *)
+(* runs).  Singular vectors move by at most |D| / gap, scores by |D| (1 + 1/gap) / sigma_k, gap >= 0.15 sigma_k inside the quantifier   *)
+(* (singular ratios <= 0.85 on both sides): with the safety factor sqrt(2), CLoc = 12 covers both, and eigenvalue / explained-variance  *)
+(* ratios move by at most 4 |D| / sigma_k <= the same term.                                                                            *)
+(*   LocBase9(n, loc12) = CLoc (n + 1) loc            in 1e-9 units (rounded up, saturating)                                           *)
+(*   LocK9(s, k, lb)    = lb sigma_1 / sigma_k        added to the base term of component k in both bound recurrences: the leakage     *)
+(*                                                    into later components is then carried by the recurrence itself                    *)
+(* With loc = 0 (every class but K3) the bounds are those of LedgerArith!BoundsPT, unchanged (LocZeroSame below).                        *)
+CLoc == 12
+LocBase9(nn, loc12) == LET f == CLoc * (nn + 1)
+                       IN IF loc12 <= 0 THEN 0
+                          ELSE IF loc12 \div 1000 >= One \div f THEN Cap ELSE MulDiv(loc12, f, 1000) + 1          \* (the model found the overflow of the naive guard)
+LocK9(s, kk, lb) == IF lb = 0 THEN 0 ELSE SatMul3(Min2(lb, Cap), SR3(s, 1, kk))
+(* iterative form (accumulators as operator arguments: TLC evaluates each bound once; the LET form of LedgerArith!BoundsPT re-evaluates   *)
+(* the shorter prefix at every use)                                                                                                    *)
+RECURSIVE BoundsIter(_, _, _, _, _, _, _)
+BoundsIter(s, keps9, m, lb, kk, bp, bt) ==
+  IF kk > m THEN [p |-> bp, t |-> bt]
+  ELSE BoundsIter(s, keps9, m, lb, kk + 1, Append(bp, SatAdd(StepP(s, keps9, bp, kk), LocK9(s, kk, lb))),
+                                            Append(bt, SatAdd(StepT(s, keps9, bp, kk), LocK9(s, kk, lb))))
+BoundsPTL(s, keps9, m, lb) == BoundsIter(s, keps9, m, lb, 1, <<>>, <<>>)
+
 (* how the present code happens to do it (switched off by PropOnly in the trace spec) *)
 ImplExtract(ev) == ev.dmodx <= TolAlg          \* model.dmodx column k = row norms of the library's own residual matrix
 ImplProject(err) == err <= 100                 \* the predictor repeats the fit's arithmetic: agreement to 1e-10
@@ -147,11 +173,67 @@ AdmissibleSets == {S \in SUBSET Alphabet : S # {} /\ Cardinality(S) <= MaxLen /\
 SetSum(S) == SeqSum(SortDesc(S))
 VarexpOf(x) == MulDiv(x, One, SetSum(spectrum))                    \* 1e-9 units of 100 %
 
-Shapes == IF ShapeSet = "quick" THEN {<<7, 5>>, <<30, 6>>, <<6, 12>>, <<9, 9>>}
-          ELSE IF ShapeSet = "thorough" THEN {<<7, 5>>, <<30, 6>>, <<6, 12>>, <<60, 25>>, <<9, 9>>, <<4, 25>>, <<2, 3>>, <<3, 3>>, <<12, 2>>, <<25, 25>>, <<45, 3>>}
-          ELSE {}
+(* ---- shapes <<n, c, nproc>>: the base shapes run on one processor (hook H2), the MT shapes force nproc workers so that the        *)
+(* multithreaded kernels MT_DVectorMatrixDotProduct (t'E, sliced over the c columns) and MT_MatrixDVectorDotProduct (E p, sliced over  *)
+(* the n rows) are the ones PCA's NIPALS loop really calls.  Shape relations follow INPUT-CLASSES.md K1 / K2 / K6.                     *)
+BaseShapes == IF ShapeSet = "quick" THEN {<<7, 5>>, <<30, 6>>, <<6, 12>>, <<9, 9>>, <<10, 9>>, <<8, 9>>, <<12, 1>>, <<33, 8>>, <<16, 17>>, <<5, 4>>}
+              ELSE IF ShapeSet = "thorough" THEN {<<7, 5>>, <<30, 6>>, <<6, 12>>, <<60, 25>>, <<9, 9>>, <<4, 25>>, <<2, 3>>, <<3, 3>>, <<12, 2>>, <<25, 25>>, <<45, 3>>,
+                                                  <<10, 9>>, <<8, 9>>, <<12, 1>>, <<2, 1>>, <<33, 8>>, <<16, 17>>, <<5, 4>>, <<32, 4>>, <<31, 32>>, <<65, 33>>,
+                                                  <<64, 5>>, <<63, 16>>, <<33, 64>>, <<17, 65>>}
+              ELSE {}
+NprocSet == IF ShapeSet = "quick" THEN {2, 3, 5, 16} ELSE IF ShapeSet = "thorough" THEN {2, 3, 5, 16, 24} ELSE {}
+MaxMtN == IF ShapeSet = "quick" THEN 60 ELSE 75
+MaxMtC == IF ShapeSet = "quick" THEN 25 ELSE 50
+(* lengths around the slice boundaries of np workers: fewer items than workers (empty slices), k np - 1, k np + 1 (ragged last slice) *)
+Around(np) == {np - 1, np + 1, 2 * np - 1, 2 * np + 1}
+MtCols(np) == {x \in Around(np) \cup {2, 3 * np + 1} : x >= 2 /\ x <= MaxMtC}
+MtRows(np) == {x \in Around(np) \cup {3 * np - 1} : x >= 3 /\ x <= MaxMtN}
+AllMtShapes == UNION {{<<r, cc, np>> : r \in MtRows(np), cc \in MtCols(np)} : np \in NprocSet}
+(* the quick tier runs a hand-picked part of the cross product (MtShapeClasses checks that it is a part of it) *)
+QuickMtShapes == {<<3, 3, 2>>, <<5, 5, 2>>, <<5, 7, 2>>, <<5, 2, 2>>, <<3, 7, 2>>,
+                  <<4, 2, 3>>, <<5, 4, 3>>, <<7, 5, 3>>, <<8, 7, 3>>, <<4, 10, 3>>, <<7, 7, 3>>,
+                  <<6, 4, 5>>, <<4, 6, 5>>, <<9, 9, 5>>, <<11, 11, 5>>, <<14, 16, 5>>, <<9, 2, 5>>, <<11, 6, 5>>,
+                  <<15, 15, 16>>, <<17, 17, 16>>, <<31, 15, 16>>, <<33, 17, 16>>, <<47, 2, 16>>, <<17, 15, 16>>}
+MtShapes == IF ShapeSet = "quick" THEN QuickMtShapes ELSE AllMtShapes
+OriginalShapes == {<<7, 5>>, <<30, 6>>, <<6, 12>>, <<9, 9>>}
+QuickSub == {1, 3, 8, 20, 100, 2000}          \* quick tier: the added shapes get the spectra of at most 3 of these (all spectra in the thorough tier)
+Shapes == {<<sh[1], sh[2], 1>> : sh \in BaseShapes} \cup MtShapes
+
+(* the slice recurrence of the two kernels (matrix.c; "assign first" in Slicing.tla): step = ceil(len/np); from = 0; to = step; every   *)
+(* worker gets [from, to); from = to; to = IF from + step > len THEN len ELSE to + step                                                *)
+CeilDiv(a, b) == (a + b - 1) \div b
+RECURSIVE SliceRec(_, _, _, _, _)
+SliceRec(w, from, to, step, len) == IF w = 0 THEN <<>>
+                                    ELSE <<<<from, to>>>> \o SliceRec(w - 1, to, IF to + step > len THEN len ELSE to + step, step, len)
+KernelSlices(len, np) == LET step == CeilDiv(len, np) IN SliceRec(np, 0, step, step, len)
+(* what spectral correctness needs from any slicing: every index handed to exactly one worker, every range inside the data *)
+SliceCover(sl, len) == /\ \A w \in 1..Len(sl) : 0 <= sl[w][1] /\ sl[w][1] <= sl[w][2] /\ sl[w][2] <= len
+                       /\ \A x \in 0..(len - 1) : Cardinality({w \in 1..Len(sl) : sl[w][1] <= x /\ x < sl[w][2]}) = 1
+EmptySlices(len, np) == len < np
+RaggedTail(len, np) == len % CeilDiv(len, np) # 0
+IdleTail(len, np) == len >= np /\ CeilDiv(len, np) * (np - 1) >= len          \* enough items, yet the last worker gets none
+
+(* input-class tags of a shape (carried through the check into coverage.classes) *)
+LenTags(len, np, what) ==
+     (IF EmptySlices(len, np) THEN {"K6:" \o what \o "<nproc"} ELSE {})
+  \cup (IF RaggedTail(len, np) THEN {"K6:" \o what \o "-ragged-last-slice"} ELSE {})
+  \cup (IF IdleTail(len, np) THEN {"K6:" \o what \o "-idle-worker"} ELSE {})
+  \cup (IF len % np = 1 /\ len > np THEN {"K2:" \o what \o "=k*nproc+1"} ELSE {})
+  \cup (IF len % np = np - 1 /\ len > np THEN {"K2:" \o what \o "=k*nproc-1"} ELSE {})
+BlockTags(len, what) ==
+     (IF len % 4 = 0 THEN {"K2:" \o what \o "=4k"} ELSE IF len % 4 = 1 /\ len > 4 THEN {"K2:" \o what \o "=4k+1"}
+      ELSE IF len % 4 = 3 THEN {"K2:" \o what \o "=4k-1"} ELSE {})
+  \cup (IF len \in 31..33 THEN {"K2:" \o what \o "~32"} ELSE {}) \cup (IF len \in 63..65 THEN {"K2:" \o what \o "~64"} ELSE {})
+ShapeTags(sh) == LET nn == sh[1]  cc == sh[2]  np == sh[3] IN
+     (IF cc = 1 THEN {"K1:single-column"} ELSE IF nn = cc THEN {"K1:square"} ELSE IF nn > cc THEN {"K1:tall"} ELSE {"K1:wide"})
+  \cup (IF nn = cc + 1 \/ cc = nn + 1 THEN {"K1:n=p+-1"} ELSE {})
+  \cup BlockTags(nn, "rows") \cup BlockTags(cc, "cols")
+  \cup (IF np > 1 THEN LenTags(cc, np, "cols") \cup LenTags(nn, np, "rows") ELSE {})
+
 SInit == /\ spectrum \in AdmissibleSets
-         /\ shape \in {sh \in Shapes : sh[1] - 1 >= Cardinality(spectrum) /\ sh[2] >= Cardinality(spectrum)}
+         /\ shape \in {sh \in Shapes : /\ sh[1] - 1 >= Cardinality(spectrum) /\ sh[2] >= Cardinality(spectrum)
+                                       /\ (ShapeSet = "quick" /\ ~(sh[3] = 1 /\ <<sh[1], sh[2]>> \in OriginalShapes) => Cardinality(spectrum) <= 3 /\ spectrum \subseteq QuickSub)
+                                       /\ (ShapeSet = "thorough" /\ sh[3] > 1 => Cardinality(spectrum) <= 3)}
          /\ remaining = spectrum /\ extracted = <<>>
 ExtractPrincipal == /\ remaining # {}
                     /\ \E x \in remaining :
@@ -163,7 +245,7 @@ SDone == remaining = {} /\ UNCHANGED svars /\ UNCHANGED lvars
 SNext == ExtractPrincipal \/ SDone
 
 (* the two models share the module: each leaves the other's variables alone *)
-LSpec == (LInit /\ spectrum = {} /\ remaining = {} /\ extracted = <<>> /\ shape = <<0, 0>>) /\ [][LNext]_<<lvars, svars>>
+LSpec == (LInit /\ spectrum = {} /\ remaining = {} /\ extracted = <<>> /\ shape = <<0, 0, 1>>) /\ [][LNext]_<<lvars, svars>>
 SSpec == (SInit /\ LInit) /\ [][SNext]_<<lvars, svars>>
 
 (* component k carries the k-th largest eigenvalue; explained variance is the descending normalised spectrum *)
@@ -179,6 +261,116 @@ BoundDefined == remaining = {} =>
                       b == BoundsPT(s, KK * EpsPca9(shape[1]), m)
                   IN m = Len(s) /\ \A i \in 1..m : /\ b.t[i] > 0 /\ b.t[i] <= Cap /\ b.p[i] > 0 /\ b.p[i] <= Cap
                                                      /\ (i > 1 => b.p[i] >= b.p[i-1] /\ b.t[i] >= b.p[i-1])
+(* the location term: absent it changes nothing, it only ever widens, and it saturates instead of overflowing *)
+LocLevels == {25000, 2000000000}
+LocSound == (remaining = {} /\ shape \in {<<7, 5, 1>>, <<30, 6, 1>>} /\ (ShapeSet = "quick" => spectrum \subseteq QuickSub)) =>
+              \* the term depends on the spectrum and n only: two shapes that admit every spectrum suffice (quick tier: the spectra over QuickSub;
+              \* evaluating a bound sequence is the expensive part of this model)
+              LET s    == extracted
+                  m    == NCmp(s, 1, 1, MaxLen)
+                  keps == KK * EpsPca9(shape[1])
+              IN \A b0 \in {BoundsPT(s, keps, m)} :                                                      \* (singleton sets: TLC evaluates each bound sequence once)
+                   /\ BoundsPTL(s, keps, m, 0) = b0                                                       \* LocZeroSame
+                   /\ \A lv \in LocLevels : \A lb \in {LocBase9(shape[1], lv)} : \A b \in {BoundsPTL(s, keps, m, lb)} :
+                        /\ lb > 0 /\ lb <= Cap
+                        /\ \A i \in 1..m : \A lk \in {LocK9(s, i, lb)} :
+                             /\ b.p[i] >= b0.p[i] /\ b.t[i] >= b0.t[i] /\ b.p[i] <= Cap /\ b.t[i] <= Cap
+                             /\ lk >= lb /\ lk <= Cap                                                    \* sigma_1/sigma_k >= 1
+                             /\ (b0.p[i] < Cap \div 2 /\ lk < Cap \div 2 => b.p[i] >= b0.p[i] + lk)         \* the term really is added
+                             /\ (i > 1 => lk >= LocK9(s, i - 1, lb))
+(* the kernels' slice recurrence hands every column / row to exactly one worker, for every emitted shape x processor count;            *)
+(* the shape classes are what their names say                                                                                         *)
+SlicesCover == LET nn == shape[1]  cc == shape[2]  np == shape[3] IN
+                 (np >= 1 /\ extracted = <<>>) => /\ Len(KernelSlices(cc, np)) = np /\ SliceCover(KernelSlices(cc, np), cc)
+                            /\ Len(KernelSlices(nn, np)) = np /\ SliceCover(KernelSlices(nn, np), nn)
+MtShapeClasses == (shape[3] > 1 /\ extracted = <<>>) =>
+                    LET nn == shape[1]  cc == shape[2]  np == shape[3] IN
+                      /\ shape \in AllMtShapes
+                      /\ (EmptySlices(cc, np) <=> KernelSlices(cc, np)[np] = <<cc, cc>> /\ cc < np)
+                      /\ (RaggedTail(cc, np) <=> \E w \in 1..np : LET sl == KernelSlices(cc, np)[w] IN sl[2] - sl[1] > 0 /\ sl[2] - sl[1] < CeilDiv(cc, np))
+                      /\ (IdleTail(cc, np) <=> cc >= np /\ KernelSlices(cc, np)[np][1] = KernelSlices(cc, np)[np][2])
+                      /\ \/ EmptySlices(cc, np) \/ RaggedTail(cc, np) \/ IdleTail(cc, np)                         \* every MT shape is in a boundary class
+                         \/ EmptySlices(nn, np) \/ RaggedTail(nn, np) \/ IdleTail(nn, np)
 (* GEN: one line per complete case *)
-Emit == IF remaining = {} THEN PrintT("@@" \o ToJson([sig2 |-> extracted, n |-> shape[1], c |-> shape[2]])) ELSE TRUE
+Emit == IF remaining = {} THEN PrintT("@@" \o ToJson([sig2 |-> extracted, n |-> shape[1], c |-> shape[2], np |-> shape[3], tags |-> ShapeTags(shape)])) ELSE TRUE
+
+(* ===================================================================================== C01, round 3 (appended; nothing above is changed) *)
+(* ---- the known finding PCA:eigenvalue-order:start-orthogonal ------------------------------------------------------------------------------- *)
+(* PCA() starts component k from the column of the deflated matrix with the largest sum of squares and stops when                              *)
+(*   |t_new - t_old|^2 / (n |t_new|^2) < PCACONVERGENCE = 1e-10.                                                                               *)
+(* Write the iterate as t = |t| (x u1 + ...), u1 the dominant left singular vector of the deflated matrix (eigenvalue lam1), and let rho be    *)
+(* the growth factor of |t| per pass (at the stop: the returned eigenvalue t't).  One pass multiplies the u1 coefficient by lam1, so x grows   *)
+(* by 1/r per pass, r = rho/lam1 <= 1, and never decreases: x_m >= x_0 = cos(start column, u1).  The u1 part of t_new - t_old alone is         *)
+(* |t| x_m (1/r - 1), hence the rule can only fire while   x_0^2 (1 - r)^2 <= 1e-10 n r^2.   When that holds for a start column (nearly)         *)
+(* orthogonal to u1 the routine returns a NON-dominant component first and the dominant one afterwards: the stored explained variances        *)
+(* increase.  Exactly orthogonal designs (x_0 = 0: factorial plans, orthogonal contrasts) do this on every run.  The harness logs, for every    *)
+(* component, cos^2 = x_0^2 (1e-12 and 1e-9 units; its own dgesdd of its own deflated matrix) and r = t't / lam1 (1e-9 units).                  *)
+(* SFStart = 4 on the amplitude (16 on the squares) covers what the derivation drops: the change of |t| between the two compared iterates,      *)
+(* tan vs cos of the start angle, the 1e-9 quantisation of r, and the rounding that separates the library's deflated matrix from the harness's. *)
+(* A component whose start column has a cos^2 above the bound was NOT stopped by the documented rule: its mis-ordering stays a violation.        *)
+SFStart == 4
+CritPca12 == 100                                   \* PCACONVERGENCE = 1e-10 in 1e-12 units
+SatQ == 2000000000                                 \* where the harness's quantisers saturate
+Sq9(x9) == MulDiv(x9, x9, One)                     \* square of a number in 0..1 (1e-9 units)
+(* cos^2 (1 - r)^2 in 1e-21 units; the 1e-12 reading saturates at 2e-3: above that the 1e-9 reading is used (and a gap^2 > 1e-4 can never pass) *)
+StartLhs(sc12, sc9, gap2) == IF sc12 < SatQ THEN MulDiv(sc12, gap2, One)
+                             ELSE IF gap2 > 100000 THEN SatQ ELSE MulDiv(sc9, gap2, 1000000)
+StartRhs(nn, r9) == MulDiv(SFStart * SFStart * CritPca12 * nn, Sq9(r9), One)
+PrematureStop(nn, sc12, sc9, r9) ==
+  /\ r9 >= 0 /\ r9 < One /\ sc12 >= 0 /\ sc9 >= 0 /\ sc9 <= One
+  /\ StartLhs(sc12, sc9, Sq9(One - r9)) <= StartRhs(nn, r9)
+(* the later, larger eigenvalue must be explained by what the earlier deflated matrix still held: eval_next <= lam1_prev = eval_prev / r         *)
+StartCoherent(nn, prevEval, r9, nextEval) == MulDiv(nextEval, r9, One) <= prevEval + TolEig(nn, prevEval)
+(* prev = the Extract event of the component that stopped early, next = the event whose eigenvalue exceeds it *)
+StartOrthogonal(nn, prev, next) == /\ PrematureStop(nn, prev.sc12, prev.sc9, prev.r9)
+                                   /\ StartCoherent(nn, prev.eval, prev.r9, next.eval)
+
+(* Extract without the order clause (the order clause is PropEvalOrder, or the classified known finding) *)
+PropExtractNoOrder(nn, ssL, ev) == PropAlg(ev) /\ PropEvalSign(ev) /\ PropBudget(nn, ssL, ev)
+(* explained variances: as PropVarexp, but their ORDER is only demanded where the ledger's eigenvalues are themselves in order - an inversion  *)
+(* of the eigenvalues was judged when it was extracted (violation or known finding) and must not raise a second alarm here                     *)
+PropVarexpW(nn, evs, ve) ==
+  /\ Len(ve) = Len(evs)
+  /\ \A i \in 1..Len(ve) : ve[i] >= 0 /\ Abs(ve[i] - evs[i]) <= TolEig(nn, evs[i])
+  /\ \A i \in 2..Len(ve) : ve[i] <= ve[i-1] + TolEig(nn, ve[i-1]) \/ evs[i] > evs[i-1]
+  /\ SeqSum(ve) <= One + SumTol(nn, evs)
+PropFinishW(nn, evs, ssL, isFull, ve) == PropVarexpW(nn, evs, ve) /\ (isFull => PropClosed(nn, evs, ssL, ve))
+
+(* ---- outputs handed over in any state (INPUT-CLASSES K7) ------------------------------------------------------------------------------------ *)
+(* The predictors promise their answer whatever the output object held before: PCAScorePredictor for a = npc and then a < npc into the same      *)
+(* output, GetResidualMatrix for a = npc and a = 1 into the same output, PCAIndVarPredictor for a = 1, .., npc into the same output.             *)
+RModes == 0..2                                      \* 0 empty, 1 another shape holding data, 2 the final shape holding data
+PropProjectAll(ev) == PropProject(ev.err) /\ PropProject(ev.part) /\ PropResidual(ev.gr)
+PropBackAll(ev) == PropBack(ev.err, ev.repr) /\ PropBack(ev.scan, ev.repr)
+(* outside the statement (the history of the MODEL object): a fit into a used model equals the fit into a fresh one *)
+RefitSame(ev) == ev.died = 0 /\ ev.vlen = ev.npc /\ ev.terr <= TolAlg /\ ev.perr <= TolAlg
+
+(* ---- input classes of a recorded fit (INPUT-CLASSES.md), computed from the Fit event by TLC and carried into coverage.classes ---------------- *)
+GenNames == {"rnd", "loc", "mag", "k5", "design", "dup", "sent"}
+FitTags(ev) ==
+       ShapeTags(<<ev.n, ev.c, ev.nproc>>)
+  \cup {"K6:nproc" \o ToString(ev.nproc)}
+  \cup {IF ev.npc = ev.rank THEN (IF ev.tail = 0 THEN "K1:npc=rank(closure)" ELSE "K1:npc=rank(tail>0)") ELSE IF ev.npc = 1 THEN "K1:npc=1" ELSE "K1:1<npc<rank"}
+  \cup (IF ev.rank < Min2(ev.n - 1, ev.c) THEN {"K8:rank-deficient"} ELSE {})
+  \cup (IF ev.loc >= 3 THEN {"K3:offset/sdev~1e" \o ToString(ev.loc) \o (IF ev.scaling = -1 THEN "-uncentred" ELSE "")} ELSE {})
+  \cup (IF ev.loc >= 6 THEN {"K3:offset>=1e6-scaling" \o ToString(ev.scaling)} ELSE {})
+  \cup (IF ev.sdhi <= -2 THEN {"K4:all-spreads-at-floor-0.02"} ELSE {})
+  \cup (IF ev.sdlo >= 5 THEN {"K4:all-spreads>=1e5"} ELSE {})
+  \cup (IF ev.sdhi - ev.sdlo >= 4 THEN {"K4:column-units-4+decades-apart"} ELSE {})
+  \cup (IF ev.gen = "mag" THEN {"K4:ill-conditioned-minor-components"} ELSE {})
+  \cup (IF ev.gen = "k5" THEN {"K5:tied-decimals"} \cup (IF ev.nconst > 0 THEN {"K5:constant-column-non-representable"} ELSE {}) ELSE {})
+  \cup (IF ev.nconst > 0 THEN {"K8:constant-column"} ELSE {})
+  \cup (IF ev.gen = "design" THEN {"K8:exactly-orthogonal-design", "K8:design" \o ToString(ev.gp) \o "-scaling" \o ToString(ev.scaling)} ELSE {})
+  \cup (IF ev.gen = "dup" THEN {"K8:integer-ties"} \cup (IF ev.gp % 2 = 1 THEN {"K8:duplicate-rows"} ELSE {}) \cup (IF ev.gp >= 2 THEN {"K8:duplicate-columns"} ELSE {}) ELSE {})
+  \cup (IF ev.gen = "sent" THEN {"K3:score-equals-missing-code"} ELSE {})
+  \cup (IF ev.h = 0 THEN {"K7:outputs-rmode" \o ToString(ev.rmode)} ELSE {"K7:history-fit" \o ToString(ev.h)})
+
+(* ---- the known finding PCA:varexp:score-equals-missing-code ----------------------------------------------------------------------------------- *)
+(* The library marks missing data IN BAND (99999999) and its kernels skip every term within 0.1 of that value - also in COMPUTED vectors.  A score  *)
+(* t_i that happens to equal the code (no cell of the data is near it) is dropped from t't: the stored eigenvalue, hence the explained variance, is   *)
+(* too small.  What still must hold then: as many explained variances as components, each in [0, eigenvalue + tolerance], sum at most 100 %.          *)
+PropFinishSentinel(nn, evs, ve) ==
+  /\ Len(ve) = Len(evs)
+  /\ \A i \in 1..Len(ve) : ve[i] >= 0 /\ ve[i] <= evs[i] + TolEig(nn, evs[i])
+  /\ SeqSum(ve) <= One + SumTol(nn, evs)
 ====
